@@ -390,21 +390,38 @@ def gc3(F, R):
     for e in taken:
         if strip_sites(e.x) != strip_sites(reader):
             R.bad("GC3", "GC3/Sodg::data/taken-on-other-vertex", e.where(), "Taken is recorded on a vertex other than the one read")
-    # the first-read region: blocks on which the reader's persistence is known to be Stored (match arm, if, or what is
-    # left after guard clauses); every returning path through it passes a Taken write
+    # every path on which the datum may be unread (nothing known excludes Stored) passes a Taken write before returning:
+    # search from the entry through blocks whose facts do not exclude Stored, stopping at Taken writes
     fin = body.facts_in()
-    region = [bi for bi in sorted(body.reachable) if bi in body.can_return and
-              requires(fin.get(bi, frozenset()), lambda s: is_pers_discr_of(s, reader), {"Stored"}) is not None]
-    if not region:
-        R.missing("GC3", "a path of data() on which the read vertex is known to hold an unread datum", body.where())
-        return
-    own = [e for e in taken if e.body is body]
-    bad = [bi for bi in region if not any(body.postdominates(e.site, (bi, 0)) or body.dominates(e.site, (bi, 0)) for e in own)]
-    if bad:
-        R.bad("GC3", "GC3/Sodg::data/stored-arm-may-skip-taken", body.where((bad[0], 0)),
+
+    def excludes_stored(bi):
+        for f in fin.get(bi, frozenset()):
+            if f[0] == "in" and is_pers_discr_of(f[1], reader) and "Stored" not in f[2]:
+                return True
+            if f[0] == "notin" and is_pers_discr_of(f[1], reader) and "Stored" in f[2]:
+                return True
+        return False
+    own_blocks = {e.site[0] for e in taken if e.body is body}
+    seen = set()
+    st = [0]
+    leak = None
+    while st:
+        x = st.pop()
+        if x in seen or x in own_blocks or excludes_stored(x):
+            continue
+        seen.add(x)
+        if body.blocks[x]["term"]["k"] == "return":
+            leak = x
+            break
+        st.extend(s2 for s2, _ in body.succ[x])
+    known = any(requires(fin.get(bi, frozenset()), lambda s: is_pers_discr_of(s, reader), {"Stored"}) is not None for bi in body.reachable)
+    if leak is not None:
+        R.bad("GC3", "GC3/Sodg::data/stored-arm-may-skip-taken", body.where((leak, 0)),
               "a first read can return without marking the datum as read (persistence := Taken)")
+    elif not known:
+        R.missing("GC3", "a path of data() on which the read vertex is known to hold an unread datum", body.where())
     else:
-        R.ok("GC3", body.where((region[0], 0)), "every returning path of the first-read region records Taken")
+        R.ok("GC3", body.where(), "every returning path on which the datum may be unread records Taken")
     # no state event outside the Stored arm
     n = 0
     for e in evs:
@@ -841,8 +858,11 @@ def gc6(F, R, parts="abcd"):
                 k = strip_load(e.args[0]) if e.args else None
                 v = strip_load(e.args[1]) if len(e.args) > 1 else None
                 nonempty = False
+                for _ in range(3):   # a clone / copy of a sentinel list is that list
+                    if v is not None and v[0] == "call" and v[1].split("::")[-1] in ("clone", "to_owned") and v[2]:
+                        v = strip_load(v[2][0])
                 if v is not None and v[0] == "call" and v[1].endswith("::from_vec"):
-                    n = literal_len(v[2][0])
+                    n = literal_len(v[2][0], ctor)
                     nonempty = n is not None and 1 <= n <= 16
                 if k is not None and k[0] == "const" and nonempty and e.uncond:
                     keys.add(k[1])
@@ -904,10 +924,20 @@ def loop_header_site(e):
     return None
 
 
-def literal_len(e):
+def literal_len(e, body=None):
     """length of a literal array / vec!-like expression, None if not literal"""
+    import re as _re
     core = strip_load(e)
     for _ in range(6):
+        if core[0] == "call" and core[1].split("::")[-1] == "new_uninit" and body is not None and len(core) > 3 and \
+                isinstance(core[3], int) and core[3] < len(body.blocks):
+            # vec![a, b, c] allocates Box<MaybeUninit<[T; n]>> and writes the literal array into it
+            t = body.blocks[core[3]]["term"]
+            if t["k"] == "call" and not t["dest"]["proj"]:
+                m = _re.search(r"MaybeUninit<\[[^;\]]+; (\d+)\]>", body.locals[t["dest"]["local"]]["ty"])
+                if m:
+                    return int(m.group(1))
+            return None
         if core[0] == "array":
             return len(core[1])
         if core[0] == "repeat":
